@@ -55,6 +55,7 @@ pub mod rand {
                 let d = DRAWS;
                 DRAWS = d + 1;
                 if d == FAIL_AT {
+                    vmodel::RNG_FAILED = true;
                     return Err(Unspecified);
                 }
                 #[cfg(kani)]
@@ -249,6 +250,7 @@ pub mod pbkdf2 {
     impl Copy for Algorithm {}
     pub static mut LAST_ROUNDS: u32 = 0;
     pub fn derive(_alg: Algorithm, iterations: NonZeroU32, salt: &[u8], secret: &[u8], out: &mut [u8]) {
+        vmodel::kdf_entry_guard();
         unsafe { LAST_ROUNDS = iterations.get() };
         // same layout as the pbkdf2 model
         let mut t = Transcript::new();
